@@ -15,7 +15,8 @@ RULE = ('named crystal pool (Bravais/multi-site, 2-D/3-D, one or several Wyckoff
         '{1,2} x random vacancy prefactors [0.5,2] and energies N(0,sigma) per Wyckoff set and omega0 class, kT in [0.5,2]; '
         'non-trivial = rates not all equal or more than one site; distinct = (crystal, Nthermo, input index)')
 ASSUMPTIONS = ['real Green function: tolerance 1e-5 x |L0vv| (the property qualifies these identities by integration accuracy; '
-               'observed <= 4e-7)', 'torus Green function: 1e-9 x |L0vv| (1e-4 for crystals with origin states, see C01)',
+               'observed <= 4e-7); a larger error is accepted only if it shrinks on denser k-meshes (NGFmax 8: not larger, 12: at most half) - '
+               'seen on the 2-D displaced triangular lattice with anisotropic rates (1e-4)', 'torus Green function: 1e-9 x |L0vv| (1e-4 for crystals with origin states, see C01)',
                'matrix inequalities with margin 1e-6 x |L0vv|']
 REQUIRED_OBS = {'eval:C06:real:Lsv=-L0vv': 20, 'eval:C06:real:L1vv=0': 20, 'eval:C06:stub:Lsv=-L0vv': 20,
                 'eval:C06:0<=Lss<=L0vv': 20, 'multi_wyckoff': 3, 'dim2': 3}
@@ -74,8 +75,17 @@ def run_case(case):
             diff.clearcache()
         sc = max(np.abs(Lr[0]).max(), 1e-300)
         dt = lambda: str(desc)
-        mon.close(Lr[2], -Lr[0], 1e-5, 'C06:real:Lsv=-L0vv', dt, tags, scale=sc)
-        mon.close(Lr[3], 0 * Lr[3], 1e-5, 'C06:real:L1vv=0', dt, tags, scale=sc)
+        def ident_err(dd):
+            L = dd.Lij(*args)
+            return max(np.abs(L[2] + L[0]).max(), np.abs(L[3]).max()) / max(np.abs(L[0]).max(), 1e-300)
+        m4 = max(np.abs(Lr[2] + Lr[0]).max(), np.abs(Lr[3]).max()) / sc
+        if m4 > 1e-5:
+            # the identities hold "to integration accuracy": decide by convergence with the k-point density
+            ok, ms = work_vac.resolved_by_denser_mesh(name, nth, ident_err, m4)
+            mon.count('identity_checked_by_mesh_convergence')
+            mon.check(ok, 'C06:real:identities-converge', lambda: 'tracer identity error %.3e (NGFmax=4) -> %s (8, 12) %s' % (m4, ms, desc), tags)
+        mon.close(Lr[2], -Lr[0], max(1e-5, 1.0001 * m4), 'C06:real:Lsv=-L0vv', dt, tags, scale=sc)
+        mon.close(Lr[3], 0 * Lr[3], max(1e-5, 1.0001 * m4), 'C06:real:L1vv=0', dt, tags, scale=sc)
         mon.close(Ls[2], -Ls[0], 1e-9, 'C06:stub:Lsv=-L0vv', dt, tags, scale=sc)
         mon.close(Ls[3], 0 * Ls[3], 1e-9 * tor.M if 'origin_states' not in tags else 1e-4, 'C06:stub:L1vv=0', dt, tags, scale=sc)
         lo = np.linalg.eigvalsh(0.5 * (Lr[1] + Lr[1].T)).min()
